@@ -1,11 +1,13 @@
 /* C08: the mock verdict is exact - a mocked scenario passes iff the actual calls match the expectations.
  *
  * A real MockSupport object is driven step by step through a HISTORY: expectations, actual calls (function,
- * object, parameter, return value), checkExpectations.  The SHAPE of the history is concrete per obligation (a
- * script: which functions / parameter names / objects / return-value requests), its DATA are symbolic:
- * expected counts (0..2), parameter values (32 bit), object identities, return values, strict order on/off,
- * ignoreOtherCalls on/off.  The failure reporter hands the first failure to h_fail_hook, which compares its
- * category and the step at which it arrives with the oracle and ends the path (a failing mock check leaves the test).
+ * object, parameter, return value), checkExpectations.  The histories come from enumerated families (see decode()):
+ * every history is one concrete path through the real engine; WHICH history runs is a symbolic input of the
+ * obligation, and so are the return values attached to the expectations and the caller's default.  Names, counts,
+ * parameter values and objects are enumerated, not symbolic: one symbolic value of these makes the shape of the
+ * engine's candidate lists symbolic, which this technique does not survive (measured, see spec.py).
+ * The failure reporter hands the first failure to h_fail_hook, which compares its category and the step at which it
+ * arrives with the oracle and ends the path (a failing mock check leaves the test).
  *
  * Oracle (from the property text): the expectations are a multiset of calls (function, parameter, object) with
  * multiplicities.  Actual calls are compared in call order; each consumes one unit of the first declared
@@ -35,6 +37,21 @@ void _ZN36MockExpectedObjectDidntHappenFailureC2EP10UtestShellRK12SimpleStringRK
  * used on the wrong type, malloc returning NULL) is a violation here; the real build arrives at h_exit_hook instead */
 void _ZN10UtestShell4failEPKcS1_mRK14TestTerminator(uint8_t* t, uint8_t* text, uint8_t* file, uint64_t line, uint8_t* term) { (void)t; (void)text; (void)file; (void)line; (void)term; CHECK(0, "the mock engine never fails one of the framework's own checks"); END_PATH(); }
 void _ZN10UtestShell8failWithERK11TestFailureRK14TestTerminator(uint8_t* t, uint8_t* f, uint8_t* term) { (void)t; (void)f; (void)term; CHECK(0, "the mock engine never fails one of the framework's own checks"); END_PATH(); }
+/* MockNamedValue::setValue(int): same effect as the original (type_ = "int", value_.intValue_ = value), but the
+ * inactive bytes of the 16-byte value union are cleared as well.  The original stores 4 bytes into a union that
+ * lives in an uninitialised stack object; the symbolic executor then no longer sees a constant there even for
+ * constant values, and every later comparison forks. */
+void _ZN12SimpleStringC2EPKc(uint8_t*, uint8_t*);
+uint8_t* _ZN12SimpleStringaSERKS_(uint8_t*, uint8_t*);
+void _ZN12SimpleStringD2Ev(uint8_t*);
+void _ZN14MockNamedValue8setValueEi(uint8_t* self, uint32_t value) {
+  uint64_t tmp[2];
+  _ZN12SimpleStringC2EPKc((uint8_t*)tmp, (uint8_t*)"int");
+  _ZN12SimpleStringaSERKS_(self + 24, (uint8_t*)tmp);
+  _ZN12SimpleStringD2Ev((uint8_t*)tmp);
+  struct w2 { uint64_t a, b; } whole = { value, 0 };
+  *(struct w2*)(self + 40) = whole;
+}
 #endif
 void h_exit_hook(void) { CHECK(0, "the mock engine never fails one of the framework's own checks"); END_PATH(); }
 
@@ -64,6 +81,16 @@ static uint32_t checked_calls;
 static int pending = -1;      /* actual call whose end-of-call verdict is still outstanding */
 static int pending_match;     /* expectation it consumes, -1: none */
 static uint32_t pending_cat;
+#ifdef KF_C08_1
+static uint32_t kf_guard = 1;
+#else
+static uint32_t kf_guard = 0;
+#endif
+#ifdef KF_C08_2
+static uint32_t kf2_guard = 1;
+#else
+static uint32_t kf2_guard = 0;
+#endif
 static uint32_t kf_both;     /* the history ends with an open expectation AND an out-of-turn call */
 
 void h_fail_hook(uint8_t* m) {
@@ -73,10 +100,8 @@ void h_fail_hook(uint8_t* m) {
   uint32_t cat = cat_of_message(m);
 #endif
   OBSERVE(cat);
-#ifdef KF_C08_1
-  /* open finding: under strict order an open expectation hides an earlier out-of-turn call (reported as "not fulfilled") */
-  ASSUME(!kf_both);
-#endif
+  /* open finding KF-C08-1: under strict order an open expectation hides an earlier out-of-turn call (reported as "not fulfilled") */
+  if (kf_guard) ASSUME(!kf_both);
   CHECK(due != C_NONE, "a failure is reported only when the actual calls deviate from the expectations, and only at the step where the deviation shows");
   CHECK(cat == due, "the reported failure carries the diagnosis of the first deviation");
   WITNESS("failure path");
@@ -138,6 +163,20 @@ static void settle_pending(void) {
   if (pending < 0) return;
   if (pending_cat != C_NONE) due = pending_cat;
 }
+/* open finding KF-C08-2: an expectation that names an object and is still a candidate when actual call k passes that
+ * object keeps its "object was passed" mark if the call's parameter then rules it out (nobody resets a candidate that is
+ * dropped from the list); a later call to the same function WITHOUT an object is then accepted for it.  The histories
+ * excluded: call k succeeds, leaves such a mark, and a later actual call names the same function and no object. */
+static int leaves_stale_object_mark(int k) {
+  const call_t* a = &ac[k];
+  if (!a->haso || !a->hasp || call_cat != C_NONE) return 0;
+  int stale = 0;
+  for (int i = 0; i < NE; i++)
+    if (ex[i].f == a->f && ex[i].used < ex[i].n && ex[i].haso && ex[i].o == a->o && !(ex[i].hasp && ex[i].p == a->p && ex[i].v == a->v)) stale = 1;
+  if (!stale) return 0;
+  for (int j = k + 1; j < NA; j++) if (ac[j].f == a->f && !ac[j].haso) return 1;
+  return 0;
+}
 static void consume(int m, uint32_t position) {
   ex[m].used++;
   if (strict) { int e = expected_at(position); if (e < 0 || !same_spec(&ex[e], &ex[m])) order_bad = 1; }
@@ -194,10 +233,11 @@ static void run_history(uint32_t dflt) {
     int ign = is_ignored(a);
     /* a new call first brings the previous one to its end */
     due = C_NONE; settle_pending();
-    if (due == C_NONE && pending >= 0) { consume(pending_match, checked_calls); pending = -1; }
+    if (due == C_NONE && pending >= 0 && pending_match >= 0) consume(pending_match, checked_calls);
     if (!ign && due == C_NONE) {
       judge(a);
       if (call_stage == ST_NAME) due = call_cat;
+      if (kf2_guard) ASSUME(!leaves_stale_object_mark(k));
     }
     h_actual(a->f);
     CHECK(due == C_NONE, "a deviation that shows at this step is reported at this step");
@@ -225,14 +265,16 @@ static void run_history(uint32_t dflt) {
       uint32_t r = h_act_return(dflt);
       CHECK(due == C_NONE, "a deviation that shows at this step is reported at this step");
       OBSERVE(r);
-      CHECK(r == ex[pending_match].rv, "an actual call returns the return value of the expectation it consumed");
-      consume(pending_match, checked_calls); pending = -1;
+      if (pending_match >= 0) CHECK(r == ex[pending_match].rv, "an actual call returns the return value of the expectation it consumed");
+      if (pending_match >= 0) consume(pending_match, checked_calls);
+      pending = -1;
     }
   }
   /* checkExpectations: the last call ends; then open expectations, then the order */
   due = C_NONE; settle_pending();
   if (due == C_NONE) {
-    if (pending >= 0) { consume(pending_match, checked_calls); pending = -1; }
+    if (pending >= 0 && pending_match >= 0) consume(pending_match, checked_calls);
+    pending = -1;
     int open = 0;
     for (int i = 0; i < NE; i++) if (ex[i].used != ex[i].n) open = 1;
     due = order_bad ? C_ORDER : open ? C_UNFULFILLED : C_NONE;
@@ -244,28 +286,48 @@ static void run_history(uint32_t dflt) {
   WITNESS("end");
 }
 
-/* histories lo .. lo+count-1 of family (ne, na, mode); which one runs is a symbolic input, so is every return value */
-static void batch(const int ne, const int na, const int mode, const uint32_t lo, const uint32_t count) {
+/* histories lo, lo+stride, ... (count of them) of family (ne, na, mode); which one runs is a symbolic input, and so
+ * are the return values attached to the expectations and the caller's default */
+static void batch(const int ne, const int na, const int mode, const uint32_t lo, const uint32_t stride, const uint32_t count) {
   h_init();
   IN_U32(pick); IN_ARR_U32(er, MAXE); IN_U32(dflt);
-  uint32_t total = family_size(ne, na, mode);
-  uint32_t hi = lo + count < total ? lo + count : total;
-  uint32_t chosen = lo + pick % (hi - lo);
+  uint32_t chosen = pick % count;
   OBSERVE(chosen);
-  for (uint32_t s = lo; s < hi; s++) {
-    if (chosen != s) continue;
-    decode(s, ne, na, mode);
+  ENV_ENGINE_ASSERT(lo + (count - 1) * stride < family_size(ne, na, mode), "batch lies inside its family");
+  for (uint32_t j = 0; j < count; j++) {
+    if (chosen != j) continue;
+    decode(lo + j * stride, ne, na, mode);
     for (int i = 0; i < ne; i++) ex[i].rv = er[i];
     /* precondition of the property: matching is unambiguous */
-    for (int i = 0; i < ne; i++) for (int j = i + 1; j < ne; j++) ASSUME(!ambiguous(&ex[i], &ex[j]));
+    for (int i = 0; i < ne; i++) for (int k = i + 1; k < ne; k++) ASSUME(!ambiguous(&ex[i], &ex[k]));
     run_history(dflt);
     return;
   }
 }
+#define BATCH(name, ne, na, mode, lo, stride, count) HARNESS(harness_##name) { batch(ne, na, mode, lo, stride, count); }
+#include "h08_batches.h"
 
-#define BATCH(name, ne, na, mode, lo, count) HARNESS(harness_##name) { batch(ne, na, mode, lo, count); }
-BATCH(probe16, 1, 1, FULL, 0, 16)
-BATCH(probe64, 1, 1, FULL, 1000, 64)
-BATCH(p1000, 1, 1, FULL, 1000, 1)
-BATCH(p1001, 1, 1, FULL, 1001, 1)
-BATCH(p1002, 1, 1, FULL, 1002, 1)
+/* open finding KF-C08-1 (expected to FAIL): strict order; expectNCalls(2, "a"), expectOneCall("b"); actual calls b, a.
+ * The call to b comes out of turn (first deviation), one call to a stays open; the failure reported is "expected call
+ * WAS NOT fulfilled", not "out of order calls". */
+/* open finding KF-C08-2 (expected to FAIL): expectOneCall("a").onObject(o1).withParameter("p", 2); expectOneCall("a").withParameter("p", 1);
+ * actualCall("a").onObject(o1).withParameter("p", 1); actualCall("a").withParameter("p", 2) - the second call names no object,
+ * the only open expectation demands o1: "expected call on object ... did not happen" is due, but the scenario PASSES. */
+HARNESS(finding_stale_object_mark) {
+  h_init();
+  IN_U32(dflt2);
+  kf2_guard = 0;
+  NE = 2; NA = 2; strict = 0; ignore_others = 0;
+  ex[0] = (call_t){ .f = 'a', .n = 1, .hasp = 1, .p = 'p', .v = 2, .haso = 1, .o = 0 }; ex[1] = (call_t){ .f = 'a', .n = 1, .hasp = 1, .p = 'p', .v = 1 };
+  ac[0] = (call_t){ .f = 'a', .hasp = 1, .p = 'p', .v = 1, .haso = 1, .o = 0, .wantr = 1 }; ac[1] = (call_t){ .f = 'a', .hasp = 1, .p = 'p', .v = 2 };
+  run_history(dflt2);
+}
+HARNESS(finding_order_hidden_by_unfulfilled) {
+  h_init();
+  IN_U32(dflt);
+  kf_guard = 0;
+  NE = 2; NA = 2; strict = 1; ignore_others = 0;
+  ex[0] = (call_t){ .f = 'a', .n = 2 }; ex[1] = (call_t){ .f = 'b', .n = 1 };
+  ac[0] = (call_t){ .f = 'b', .wantr = 1 }; ac[1] = (call_t){ .f = 'a', .wantr = 1 };
+  run_history(dflt);
+}
